@@ -536,17 +536,19 @@ TOSTRING_STAGES = {
     "C13": {"quick":    [("caps-text", _ts(3, 3, "ValsText", "NamesAB", "TRUE")),
                          ("caps-wide", _ts(1, 2, "ValsWide", "NamesOdd", "TRUE")),
                          ("prior-state", _ts(3, 3, "ValsText", "NamesAB", "FALSE", "TRUE", "RootsOA", "Pres012"))],
-            "thorough": [("caps-text", _ts(4, 3, "ValsText", "NamesAB", "TRUE")),
-                         ("caps-wide", _ts(2, 2, "ValsWide", "NamesOdd", "TRUE")),
-                         ("prior-state", _ts(4, 3, "ValsText", "NamesAB", "FALSE", "TRUE", "RootsOA", "Pres012"))]},
+            # the model stages of the thorough tier stay close to the quick bounds (one more node / level costs hours
+            # here: every state evaluates the renderer for a whole document); the depth comes from 20x more recorded documents
+            "thorough": [("caps-text", _ts(3, 3, "ValsText", "NamesAB", "TRUE")),
+                         ("caps-wide", _ts(1, 3, "ValsWide", "NamesOdd", "TRUE")),
+                         ("prior-state", _ts(3, 3, "ValsText", "NamesAB", "TRUE", "TRUE", "RootsOA", "Pres012"))]},
     "C14": {"quick":    [("siblings", _ts(5, 4, "ValsOne", "NamesAB", "FALSE", "FALSE")),
                          ("values", _ts(2, 2, "ValsWide", "NamesOdd", "FALSE", "FALSE")),
                          ("text", _ts(3, 3, "ValsText", "NamesAB", "FALSE", "FALSE")),
                          ("prior-state", _ts(2, 3, "ValsText", "NamesAB", "FALSE", "FALSE", "RootsOA", "Pres012"))],
-            "thorough": [("siblings", _ts(6, 4, "ValsOne", "NamesAB", "FALSE", "FALSE")),
+            "thorough": [("siblings", _ts(5, 4, "ValsOne", "NamesAB", "FALSE", "FALSE")),
                          ("prior-state", _ts(3, 3, "ValsText", "NamesAB", "FALSE", "FALSE", "RootsOA", "Pres012")),
-                         ("values", _ts(3, 3, "ValsWide", "NamesOdd", "FALSE", "FALSE")),
-                         ("text", _ts(4, 3, "ValsText", "NamesAB", "FALSE", "FALSE"))]},
+                         ("values", _ts(2, 3, "ValsWide", "NamesOdd", "FALSE", "FALSE")),
+                         ("text", _ts(3, 3, "ValsText", "NamesAB", "FALSE", "FALSE"))]},
 }
 ASSUME_TS = [
     "Layer I (spec/ToStringImpl.tla) transcribes the two print callbacks incl. the snprintf/available bookkeeping; bound by comparing the stored high-water mark (drift reported)",
